@@ -323,8 +323,12 @@ def gen_wide_tx(rng, classes, depth=0):
     if r < 0.88:
         return ["T", gen_wide_tx(rng, classes, depth + 1)] if rng.random() < 0.7 else \
             ["T", gen_wide_tx(rng, classes, depth + 1), gen_wide_tx(rng, classes, depth + 1)]
-    if r < 0.92:
+    if r < 0.90:
         return [rng.choice(["Ls", "Sq"]), rng.choice(["int", "str", "MyInt"])]
+    if r < 0.92:
+        # a condition whose bound is itself value-dependent (list[int], tuple[int, str], Literal[...])
+        b = rng.choice([["Ls", "int"], ["Ls", "str"], ["T", "int", "str"], ["Sq", "int"], ["L", 1, 2, 3]])
+        return ["D", b, rng.choice(["truthy", "always", "falsy"])]
     if r < 0.95:
         return rng.choice([["SW", "a"], ["EW", "a"], ["Rx", "^a"], ["HK", "k"]])
     if r < 0.98:
